@@ -477,27 +477,28 @@ pub fn gen(tier: Tier, rng: &mut Rng64, out: &mut Out) {
         for t in 0..count {
             let b = fmt_bdd(&bdd_of_tt(n, &tt_from_index(n, t)));
             ops_for(&b, n, &partials, &subsets, rng, out);
-            if n == 3 && t % (if thorough { 5 } else { 15 }) == 7 {
+            if n == 3 && !thorough && t % 15 == 7 {
                 if let Some((key, args)) = bigs.pop() { run(key, &args, out); }
             }
-            // wide operands, spread over the stream as well (quick: 96 sets, thorough: 1 536)
-            if n == 3 {
-                let per = if thorough { 6 } else if t % 8 < 3 { 1 } else { 0 };
-                for _ in 0..per { wide_one(rng, wide_k, out); wide_k += 1; }
-            }
+            // wide operands, spread over the stream as well (quick: 96 sets here; thorough: 96 here + 1 500 below)
+            if n == 3 && t % 8 < 3 { wide_one(rng, wide_k, out); wide_k += 1; }
         }
     }
-    while let Some((key, args)) = bigs.pop() { run(key, &args, out); }
+    if !thorough { while let Some((key, args)) = bigs.pop() { run(key, &args, out); } }
     wide_constants(rng, out);
     // --- thorough: a sample of the functions over 4 variables with the same treatment, and the one-variable
     //     restrict / pick on ALL 65 536 functions over 4 variables
     if thorough {
         let partials = all_partials(4);
         let subsets = all_subsets(4);
-        for _ in 0..1500 {
+        for i in 0..1500 {
             let b = fmt_bdd(&bdd_of_tt(4, &tt_from_index(4, rng.below(65536))));
             ops_for(&b, 4, &partials, &subsets, rng, out);
+            // the expensive cases of the thorough tier are spread over this long stretch (all shards of the runner)
+            wide_one(rng, wide_k, out); wide_k += 1;
+            if i % 25 == 3 { if let Some((key, args)) = bigs.pop() { run(key, &args, out); } }
         }
+        while let Some((key, args)) = bigs.pop() { run(key, &args, out); }
         for t in 0..65536u64 {
             let b = fmt_bdd(&bdd_of_tt(4, &tt_from_index(4, t)));
             for x in 0..4usize {
